@@ -1664,6 +1664,9 @@ class Food(UnitConversions):
             # Validate the list
             self.validate_if_list()
 
+            # Comparing foods with different units is meaningless
+            assert self.units == other.units
+
             # Check if fat is included in the conversions
             if self.conversions.include_fat:
                 # Check if any of the fat values are less than or equal to the other food's fat values
